@@ -91,18 +91,18 @@ type sampled struct {
 }
 
 var (
-	sampMu   sync.Mutex
-	samples  []sampled
-	sampleCt = map[string]int{}
+	sampMu  sync.Mutex
+	samples []sampled
 )
 
 // maybeSample keeps every k-th case of a section for the independence re-run.
 func maybeSample(sec string, k int, r *rig, c Case, o Obs, nonnum string) {
-	sampMu.Lock()
-	sampleCt[sec]++
-	if sampleCt[sec]%k == 0 {
-		samples = append(samples, sampled{sec, r.opts, c, o, nonnum})
+	r.nSeen++
+	if r.nSeen%k != 0 {
+		return
 	}
+	sampMu.Lock()
+	samples = append(samples, sampled{sec, r.opts, c, o, nonnum})
 	sampMu.Unlock()
 }
 
@@ -195,13 +195,14 @@ func mainSectionUnits() []unit {
 	}
 	if !ev.Thorough() {
 		for n := 1; n <= 3; n++ {
-			b := mainBounds{n: n, alphabet: fullAlphabet, maxCur: n, shards: map[int]int{1: 1, 2: 1, 3: 4}[n], sampleK: 9001}
+			b := mainBounds{n: n, alphabet: fullAlphabet, maxCur: n, shards: map[int]int{1: 1, 2: 1, 3: 6}[n], sampleK: 9001}
 			units = append(units, mainUnits("full", b, entries)...)
 		}
 		note("full", "1..3", 3, alphFull)
-		b4 := mainBounds{n: 4, alphabet: tinyAlphabet, maxCur: 4, shards: 3, sampleK: 9001}
-		units = append(units, mainUnits("n4", b4, entries)...)
+		b4 := mainBounds{n: 4, alphabet: tinyAlphabet, maxCur: 4, shards: 4, sampleK: 9001}
+		units = append(units, mainUnits("n4", b4, []string{"pin"})...)
 		note("n4", 4, 4, alphTiny)
+		R.Sec("n4/block").Bounds["note"] = "quick tier: 4 peers only through Cluster.Pin; thorough covers BlockAllocate too"
 	} else {
 		for n := 1; n <= 4; n++ {
 			b := mainBounds{n: n, alphabet: fullAlphabet, maxCur: n, shards: map[int]int{1: 1, 2: 1, 3: 2, 4: 24}[n], sampleK: 100003}
